@@ -437,6 +437,28 @@ def high_rank_order(ctx):
                              "another index was contracted" if r[0] == "ok" else r[1:3], replay=[desc])
 
 
+def high_rank_tensor_product(ctx):
+    """`tensor_product` of a tensor with nine indices equals the diagram of the two unconnected nodes (the documented equivalence),
+    also when Python's set iteration order of the index set is not ascending"""
+    from geometer.base import Tensor, TensorDiagram
+    rng = ctx.rng
+    for cov in ([1, 8], [0, 8], [8, 9, 1]):
+        rank = max(cov) + 1
+        arr = np.array([rng.randint(-2, 2) for _ in range(2 ** rank)]).reshape((2,) * rank)
+        T = Tensor(arr, covariant=cov)
+        v = Tensor(np.array([1, 10]), covariant=bool(rng.randrange(2)))
+        for name, f1, f2 in (("T x v", lambda: T.tensor_product(v), lambda: (lambda d: (d.add_node(T), d.add_node(v), d.calculate())[-1])(TensorDiagram())),
+                             ("v x T", lambda: v.tensor_product(T), lambda: (lambda d: (d.add_node(v), d.add_node(T), d.calculate())[-1])(TensorDiagram()))):
+            desc = f"tensor_product {name}: T of rank {rank} with covariant indices {cov}, v a vector"
+            ctx.case(desc)
+            ctx.count("high-rank-tensor_product")
+            a, b = call_impl(f1), call_impl(f2)
+            ok = a[0] == "ok" and b[0] == "ok" and a[1].array.shape == b[1].array.shape and np.array_equal(a[1].array, b[1].array) \
+                and a[1].tensor_shape == b[1].tensor_shape
+            if not ok:
+                ctx.disagree("C05:high-rank:tensor_product", desc, "the diagram of the two unconnected nodes", "differs" if a[0] == "ok" and b[0] == "ok" else (a[1:3], b[1:3]), replay=[desc])
+
+
 def eps_instances_independent(ctx, prefix="C05"):
     """item assignment on one Levi-Civita / Kronecker tensor object does not change the tensors constructed afterwards
     (the cached arrays are not handed out writable)"""
@@ -469,6 +491,7 @@ def eps_instances_independent(ctx, prefix="C05"):
 def correspondence(ctx):
     copy_stream(ctx, ctx.budget(20, 200))
     high_rank_order(ctx)
+    high_rank_tensor_product(ctx)
     eps_instances_independent(ctx)
     reevaluate(ctx, ctx.budget(20, 200))
     loop_edges(ctx, ctx.budget(30, 300))
